@@ -136,6 +136,9 @@ func runC10(c *Ctx) {
 		if run.crash != "" {
 			fail("crash", run.crash)
 		}
+		if run.lateCommit != "" {
+			fail("late_phase_one_committed_after_rollback", run.lateCommit)
+		}
 		op := strings.Join(append(cs.headerToks(), run.Toks...), " ")
 		c.Out.Case(cid, "C10", op, strings.Join(run.Obs, " "))
 		c.Out.Oracle(cid, class == "", class, detail+" | "+strings.Join(run.Obs, " "))
@@ -159,6 +162,7 @@ func runC10Early(c *Ctx, w *ATWorld, cs *ATCase, run *ATRun, r *Rng) {
 	w.coord.ResetLog()
 	w.Eng.ResetJournal()
 	target := r.Intn(len(cs.Locals))
+	deliveries := 1 + r.Intn(3)
 	run.crash = safeCall(func() {
 		run.xid, _ = InGlobalTx(cs.ID, func(ctx context.Context) error {
 			for li, ltx := range cs.Locals {
@@ -169,11 +173,13 @@ func runC10Early(c *Ctx, w *ATWorld, cs *ATCase, run *ATRun, r *Rng) {
 						if b, ok := m.Body.(message.BranchRegisterRequest); ok && b.Xid == tmXID(ctx) {
 							id := w.coord.NewBranchID()
 							info := BranchInfo{Xid: b.Xid, BranchID: id, ResourceID: b.ResourceId, LockKey: b.LockKey, Type: b.BranchType}
-							st, got, _ := w.coord.RollbackBranch(s, info, 5*time.Second)
-							if got && st == branch.BranchStatusPhasetwoRollbacked {
-								earlyStatus = "ok"
-							} else {
-								earlyStatus = "fail"
+							// the early rollback is delivered 1-3 times (coordinator retries): the marker must survive
+							earlyStatus = "ok"
+							for d := 0; d < deliveries; d++ {
+								st, got, _ := w.coord.RollbackBranch(s, info, 5*time.Second)
+								if !(got && st == branch.BranchStatusPhasetwoRollbacked) {
+									earlyStatus = "fail"
+								}
 							}
 							return Action{Body: message.BranchRegisterResponse{AbstractTransactionResponse: okHead(), BranchId: id}}
 						}
@@ -183,6 +189,7 @@ func runC10Early(c *Ctx, w *ATWorld, cs *ATCase, run *ATRun, r *Rng) {
 					run.Toks = append(run.Toks, "L")
 				}
 				nBefore := len(w.coord.RegisteredBranches(tmXID(ctx)))
+				tableBefore := w.DumpTable(sc.Table)
 				var err error
 				if ltx.Explicit {
 					var tx *sql.Tx
@@ -220,6 +227,9 @@ func runC10Early(c *Ctx, w *ATWorld, cs *ATCase, run *ATRun, r *Rng) {
 						res = "committed"
 					}
 					run.Obs = append(run.Obs, fmt.Sprintf("L:early-rb:%s:%s", earlyStatus, res))
+					if after := w.DumpTable(sc.Table); earlyStatus == "ok" && after != tableBefore {
+						run.lateCommit = fmt.Sprintf("the branch was answered rollbacked %d time(s) before its undo log was flushed, yet its local transaction committed: %s -> %s", deliveries, tableBefore, after)
+					}
 				case err != nil:
 					run.Obs = append(run.Obs, "L:err")
 				case !registered:
